@@ -364,13 +364,13 @@ fn main() {
     };
     let std_b = [Builder::Push, Builder::Extend, Builder::ConcurrentReverse];
     // (a) all non-decreasing sequences of length <= N over 0..=M
-    let (nmax, vmax) = if t { (5, 12) } else { (4, 9) };
+    let (nmax, vmax) = if t { (6, 13) } else { (5, 12) };
     for n in 0..=nmax {
         let mut seqs = vec![];
         gen(n, vmax, &mut vec![], &mut seqs);
         for s in &seqs {
             let last = s.last().copied().unwrap_or(0);
-            let us: Vec<usize> = if t { vec![last, last + 1, last + 5, last * 8 + 3, last + 1000, 1 << 40] } else { vec![last, last + 1, last * 8 + 3, 1 << 40] };
+            let us: Vec<usize> = if t || n <= 4 { vec![last, last + 1, last + 5, last * 8 + 3, last + 1000, 1 << 40] } else { vec![last, last + 1, last * 8 + 3, 1 << 40] };
             for u in us {
                 let mut bs: Vec<Builder> = vec![Builder::Push, Builder::Extend];
                 if u == last {
